@@ -94,6 +94,7 @@ type FaultReader struct {
 	WithData bool  // true: the error is returned together with the last delivered bytes (if At > 0)
 	OneByte  bool  // true: deliver one byte per Read
 	Err      error // the error to fail with (nil: ErrInjected)
+	Resume   bool  // true: the fault is transient - after the error has been returned once the remaining data is delivered (like iotest.TimeoutReader, a deadline that was extended, a retried network read)
 	off      int
 	faulted  bool
 	After    int // Read calls after the fault
@@ -109,6 +110,17 @@ func (r *FaultReader) Read(p []byte) (int, error) {
 		return 0, nil
 	}
 	r.Reads++
+	if r.faulted && r.Resume {
+		if r.off >= len(r.Data) {
+			return 0, io.EOF
+		}
+		n := copy(p, r.Data[r.off:])
+		if r.OneByte {
+			n = 1
+		}
+		r.off += n
+		return n, nil
+	}
 	if r.faulted {
 		r.After++
 		if r.After > 2000 {
@@ -165,4 +177,40 @@ func (w *LimitWriter) Write(p []byte) (int, error) {
 	w.Got = append(w.Got, p[:room]...)
 	w.Failures++
 	return room, ErrInjected
+}
+
+// RichLimitWriter is a LimitWriter that also offers the optional writer interfaces a library may look
+// for and take a fast path on: io.ByteWriter, io.StringWriter and io.ReaderFrom (what bytes.Buffer,
+// bufio.Writer, os.File and strings.Builder offer). Every path shares the one byte budget.
+type RichLimitWriter struct{ LimitWriter }
+
+// WriteByte implements io.ByteWriter.
+func (w *RichLimitWriter) WriteByte(c byte) error {
+	_, err := w.Write([]byte{c})
+	return err
+}
+
+// WriteString implements io.StringWriter.
+func (w *RichLimitWriter) WriteString(s string) (int, error) { return w.Write([]byte(s)) }
+
+// ReadFrom implements io.ReaderFrom.
+func (w *RichLimitWriter) ReadFrom(r io.Reader) (int64, error) {
+	var total int64
+	buf := make([]byte, 512)
+	for {
+		n, err := r.Read(buf)
+		if n > 0 {
+			k, werr := w.Write(buf[:n])
+			total += int64(k)
+			if werr != nil {
+				return total, werr
+			}
+		}
+		if err == io.EOF {
+			return total, nil
+		}
+		if err != nil {
+			return total, err
+		}
+	}
 }
